@@ -15,18 +15,24 @@ type Uint32 = atomic.Uint32
 type Uint64 = atomic.Uint64
 type Value = atomic.Value
 
-func AddUint32(p *uint32, d uint32) uint32 { vs.Point("atomic.AddUint32"); return atomic.AddUint32(p, d) }
-func AddInt32(p *int32, d int32) int32     { vs.Point("atomic.AddInt32"); return atomic.AddInt32(p, d) }
-func AddUint64(p *uint64, d uint64) uint64 { vs.Point("atomic.AddUint64"); return atomic.AddUint64(p, d) }
-func AddInt64(p *int64, d int64) int64     { vs.Point("atomic.AddInt64"); return atomic.AddInt64(p, d) }
-func LoadUint32(p *uint32) uint32          { vs.Point("atomic.LoadUint32"); return atomic.LoadUint32(p) }
-func LoadInt32(p *int32) int32             { vs.Point("atomic.LoadInt32"); return atomic.LoadInt32(p) }
-func LoadUint64(p *uint64) uint64          { vs.Point("atomic.LoadUint64"); return atomic.LoadUint64(p) }
-func LoadInt64(p *int64) int64             { vs.Point("atomic.LoadInt64"); return atomic.LoadInt64(p) }
-func StoreUint32(p *uint32, v uint32)      { vs.Point("atomic.StoreUint32"); atomic.StoreUint32(p, v) }
-func StoreInt32(p *int32, v int32)         { vs.Point("atomic.StoreInt32"); atomic.StoreInt32(p, v) }
-func StoreUint64(p *uint64, v uint64)      { vs.Point("atomic.StoreUint64"); atomic.StoreUint64(p, v) }
-func StoreInt64(p *int64, v int64)         { vs.Point("atomic.StoreInt64"); atomic.StoreInt64(p, v) }
+func AddUint32(p *uint32, d uint32) uint32 {
+	vs.Point("atomic.AddUint32")
+	return atomic.AddUint32(p, d)
+}
+func AddInt32(p *int32, d int32) int32 { vs.Point("atomic.AddInt32"); return atomic.AddInt32(p, d) }
+func AddUint64(p *uint64, d uint64) uint64 {
+	vs.Point("atomic.AddUint64")
+	return atomic.AddUint64(p, d)
+}
+func AddInt64(p *int64, d int64) int64 { vs.Point("atomic.AddInt64"); return atomic.AddInt64(p, d) }
+func LoadUint32(p *uint32) uint32      { vs.Point("atomic.LoadUint32"); return atomic.LoadUint32(p) }
+func LoadInt32(p *int32) int32         { vs.Point("atomic.LoadInt32"); return atomic.LoadInt32(p) }
+func LoadUint64(p *uint64) uint64      { vs.Point("atomic.LoadUint64"); return atomic.LoadUint64(p) }
+func LoadInt64(p *int64) int64         { vs.Point("atomic.LoadInt64"); return atomic.LoadInt64(p) }
+func StoreUint32(p *uint32, v uint32)  { vs.Point("atomic.StoreUint32"); atomic.StoreUint32(p, v) }
+func StoreInt32(p *int32, v int32)     { vs.Point("atomic.StoreInt32"); atomic.StoreInt32(p, v) }
+func StoreUint64(p *uint64, v uint64)  { vs.Point("atomic.StoreUint64"); atomic.StoreUint64(p, v) }
+func StoreInt64(p *int64, v int64)     { vs.Point("atomic.StoreInt64"); atomic.StoreInt64(p, v) }
 func CompareAndSwapUint32(p *uint32, o, n uint32) bool {
 	vs.Point("atomic.CASUint32")
 	return atomic.CompareAndSwapUint32(p, o, n)
@@ -35,5 +41,8 @@ func CompareAndSwapInt32(p *int32, o, n int32) bool {
 	vs.Point("atomic.CASInt32")
 	return atomic.CompareAndSwapInt32(p, o, n)
 }
-func SwapUint32(p *uint32, n uint32) uint32 { vs.Point("atomic.SwapUint32"); return atomic.SwapUint32(p, n) }
-func SwapInt32(p *int32, n int32) int32     { vs.Point("atomic.SwapInt32"); return atomic.SwapInt32(p, n) }
+func SwapUint32(p *uint32, n uint32) uint32 {
+	vs.Point("atomic.SwapUint32")
+	return atomic.SwapUint32(p, n)
+}
+func SwapInt32(p *int32, n int32) int32 { vs.Point("atomic.SwapInt32"); return atomic.SwapInt32(p, n) }
